@@ -359,6 +359,9 @@ fn main() {
     sets.extend(subsets(&tiny, 4));
     if thorough {
         sets.extend(subsets(&tiny, 5));
+        // and every set of 4 over the key-1 part of the full universe restricted to times 1..2 (20 updates)
+        let mid: Vec<Upd> = uni.iter().copied().filter(|u| u.key == 1 && u.time <= 2).collect();
+        sets.extend(subsets(&mid, 4));
     }
     sets.sort();
     sets.dedup();
@@ -457,7 +460,7 @@ fn main() {
     let coverage = json!({
         "evaluations": cases.load(Ordering::Relaxed) + race_execs,
         "distinct_nontrivial": compacted.load(Ordering::Relaxed) + race_outcomes.len() as u64,
-        "rule": "(a) every set of 2-3 updates, plus every set of 4 (thorough: 5) over a tiny universe (k1: {SET a, DEL} x time 1..3 x replica 1; two updates of k2) (thorough: also 4 over a reduced universe) from a universe of 32 updates (key k1: {SET a, SET b, DEL, HSET f, HSET g} x logical time 1..3 x replica 1..2; two updates of k2) whose merge is order-independent, placed in every way into >=2 ordered segments (optionally one update in a checkpoint), x 18 configurations (clock in {0, ttl-1, ttl+10, production epoch} x ttl in {1h, 0}; all segments selected / only single-record segments / at most 2 per compaction): recovered state before vs after one real compact(); a case is non-trivial when compaction actually rewrote segments; (b) every interleaving of the store operations of compact() and a concurrent flush() for the listed layouts",
+        "rule": "(a) every set of 2-3 updates, plus every set of 4 (thorough: 5) over a tiny universe (k1: {SET a, DEL} x time 1..3 x replica 1; two updates of k2) (thorough: also 4 over a reduced universe and 4 over all key-1 updates with times 1..2) from a universe of 32 updates (key k1: {SET a, SET b, DEL, HSET f, HSET g} x logical time 1..3 x replica 1..2; two updates of k2) whose merge is order-independent, placed in every way into >=2 ordered segments (optionally one update in a checkpoint), x 18 configurations (clock in {0, ttl-1, ttl+10, production epoch} x ttl in {1h, 0}; all segments selected / only single-record segments / at most 2 per compaction): recovered state before vs after one real compact(); a case is non-trivial when compaction actually rewrote segments; (b) every interleaving of the store operations of compact() and a concurrent flush() for the listed layouts",
         "update_sets_considered": sets.len(),
         "update_sets_with_order_dependent_merge_excluded": order_dependent,
         "layouts": layouts_n.load(Ordering::Relaxed),
